@@ -1,2 +1,26 @@
-(* C11 placeholder until Proofs/QueueProofs.v exists *)
-From N2kV Require Import Model.NodeDefs Spec.SendSpec.
+(* C11 - frames queued under driver back-pressure leave in order, once, with none lost.  Statements fixed in Spec/SendSpec.v;
+   run_refines and no_loss_no_dup are stated in Proofs/QueueProofs.v over operation lists. *)
+From Coq Require Import ZArith List.
+From N2kV Require Import Model.NodeDefs Spec.SendSpec Proofs.QueueProofs.
+Import ListNotations.
+Local Open Scope Z_scope.
+
+Theorem C11_queue_refines_fifo : queue_refines_fifo_stmt.  Proof. exact queue_refines_fifo. Qed.
+Print Assumptions C11_queue_refines_fifo.
+Theorem C11_queue_init : queue_init_stmt.  Proof. exact queue_init. Qed.
+Print Assumptions C11_queue_init.
+Check run_refines.
+Print Assumptions run_refines.
+Check no_loss_no_dup.
+Print Assumptions no_loss_no_dup.
+
+(* non-vacuity: a ring of 3 with a refusing driver holds two frames, refuses the third, then drains in order *)
+Example C11_nonvacuous :
+  let q0 := sring_new 3 in
+  let '(q1, _, _, ok1) := send_frame q0 [false] 1 8 [1;1;1;1;1;1;1;1] true in
+  let '(q2, _, _, ok2) := send_frame q1 [false] 2 8 [2;2;2;2;2;2;2;2] true in
+  let '(q3, _, _, ok3) := send_frame q2 [false] 3 8 [3;3;3;3;3;3;3;3] true in
+  let '(q4, _, ev, ok4) := flush q3 [] in
+  (ok1, ok2, ok3, ok4) = (true, true, false, true) /\ map (fun e => match e with EvTx id _ _ _ => id | _ => 0 end) ev = [1; 2] /\ ring_contents q4 = [].
+Proof. vm_compute. repeat split. Qed.
+Print Assumptions C11_nonvacuous.
